@@ -616,6 +616,129 @@ pub fn perm_case(c: &PermCase, obs: &mut Obs) -> PResult {
     }
 }
 
+/// Exactly representable data (multiples of 1/4 with a handful of bits): every sum and square the crate forms is exact,
+/// so scaling by 2^e must reproduce the bounds bit for bit for *every* e that keeps the data, their squares, the
+/// variance and the bounds themselves inside the normal range — right up to the edges, and also where quantities
+/// derived from them (variance / n, the standard error squared) would not be normal.
+#[derive(Clone, Debug, Serialize, Deserialize)]
+pub struct ExactCase {
+    pub f32: bool,
+    /// observations in quarters: x_i = q_i / 4
+    pub a: Vec<i8>,
+    pub b: Vec<i8>,
+    pub conf: Conf,
+    /// position of the scale inside the admissible exponent range: 0..=255 maps linearly from the lowest to the highest
+    pub pos: u8,
+}
+pub fn exact_case(c: &ExactCase, obs: &mut Obs) -> PResult {
+    fn go<F: Fl>(c: &ExactCase, obs: &mut Obs) -> PResult {
+        let av: Vec<f64> = c.a.iter().map(|q| *q as f64 / 4.0).collect();
+        let bv: Vec<f64> = c.b.iter().map(|q| *q as f64 / 4.0).collect();
+        let m = av.len().min(bv.len());
+        let ra = MeanRef::new(&av);
+        if ra.constant || av.len() < 2 {
+            return Ok(());
+        }
+        let d: Vec<f64> = av[..m].iter().zip(bv[..m].iter()).map(|(x, y)| x - y).collect();
+        let rd = MeanRef::new(&d);
+        let (min_exp, max_exp): (i32, i32) = if F::IS32 { (-126, 127) } else { (-1022, 1023) };
+        // smallest magnitude that must stay normal: the smallest non-zero |x|, x^2, variance, |mean| * |sum|, |bound|
+        let af: Vec<F> = av.iter().map(|x| F::from64(*x)).collect();
+        let bf: Vec<F> = bv.iter().map(|x| F::from64(*x)).collect();
+        let kn = c.conf.kind_name();
+        let (Out::Ok(ia), pa) = (arith::<F>(&c.conf, &af), if m >= 2 && !rd.constant { Some(paired::<F>(&c.conf, &af[..m].to_vec(), &bf[..m].to_vec())) } else { None }) else {
+            return crate::engine::fail("C16/exact_scaling/rejected", "base interval of exactly representable data is not Ok".to_string());
+        };
+        let (_, l0, h0) = bounds(&ia);
+        let mut smallest = f64::INFINITY; // of quantities that scale with 2^e
+        let mut smallest_sq = f64::INFINITY; // of quantities that scale with 4^e
+        let mut largest_sq = 0.0f64;
+        for x in av.iter().chain(bv.iter()) {
+            if *x != 0.0 {
+                smallest = smallest.min(x.abs());
+                smallest_sq = smallest_sq.min(x * x);
+            }
+            largest_sq = largest_sq.max(x * x);
+        }
+        for b in [l0, h0, ra.mean, ra.sd] {
+            if b.is_finite() && b != 0.0 {
+                smallest = smallest.min(b.abs());
+            }
+        }
+        for v in [ra.var, (ra.mean * ra.mean * ra.n as f64).abs()] {
+            if v != 0.0 {
+                smallest_sq = smallest_sq.min(v);
+            }
+        }
+        let n_all = av.len().max(bv.len()) as f64;
+        // admissible exponents: 2^e smallest >= MIN_POSITIVE, 4^e smallest_sq >= MIN_POSITIVE, n 4^e largest_sq <= MAX / 16
+        let e_lo = (min_exp as f64 - smallest.log2()).ceil().max(((min_exp as f64 - smallest_sq.log2()) / 2.0).ceil()) as i32;
+        let e_hi = (((max_exp - 4) as f64 - (n_all * largest_sq).log2()) / 2.0).floor() as i32;
+        if e_lo >= e_hi {
+            return Ok(());
+        }
+        // the position code reaches both ends exactly and the interior
+        let e = match c.pos {
+            0..=39 => e_lo + (c.pos as i32) / 8,
+            216..=255 => e_hi - (255 - c.pos as i32) / 8,
+            p => e_lo + ((p as i64 - 40) * (e_hi - e_lo) as i64 / 176) as i32,
+        };
+        if e == 0 {
+            return Ok(());
+        }
+        let s = F::from64(pow2(e));
+        let sc = |d: &[F]| -> Vec<F> { d.iter().map(|x| *x * s).collect() };
+        obs.eval();
+        match arith::<F>(&c.conf, &sc(&af)) {
+            Out::Ok(i) => {
+                if let Err(msg) = scaled_eq::<F>(&ia, &i, e, 0) {
+                    return crate::engine::fail(format!("C16/exact_scaling/arithmetic/{kn}"), format!("{} data {av:?} (exactly representable), admissible exponents {e_lo}..={e_hi}: {msg}", F::NAME));
+                }
+            }
+            o => return crate::engine::fail("C16/exact_scaling/arithmetic/rejected", format!("{} data {av:?} scaled by 2^{e} (admissible {e_lo}..={e_hi}): {}", F::NAME, o.describe())),
+        }
+        if let Some(Out::Ok(ip)) = pa {
+            // the paired interval needs its own quantities normal: re-derive the lower limit from the differences
+            let mut sm = f64::INFINITY;
+            for v in [rd.var, (rd.mean * rd.mean * rd.n as f64).abs()] {
+                if v != 0.0 {
+                    sm = sm.min(v);
+                }
+            }
+            let (_, pl, ph) = bounds(&ip);
+            let mut s1 = f64::INFINITY;
+            for b in [pl, ph, rd.mean, rd.sd].into_iter().chain(d.iter().copied()) {
+                if b.is_finite() && b != 0.0 {
+                    s1 = s1.min(b.abs());
+                    sm = sm.min(b * b);
+                }
+            }
+            let pe_lo = (min_exp as f64 - s1.log2()).ceil().max(((min_exp as f64 - sm.log2()) / 2.0).ceil()) as i32;
+            if e >= pe_lo {
+                obs.eval();
+                match paired::<F>(&c.conf, &sc(&af[..m]), &sc(&bf[..m])) {
+                    Out::Ok(i) => {
+                        if let Err(msg) = scaled_eq::<F>(&ip, &i, e, 0) {
+                            return crate::engine::fail(format!("C16/exact_scaling/paired/{kn}"), format!("{} pairs {av:?} / {bv:?} (exactly representable), exponent range from {pe_lo}: {msg}", F::NAME));
+                        }
+                        obs.class("exact_scaling/paired");
+                    }
+                    o => return crate::engine::fail("C16/exact_scaling/paired/rejected", format!("{} scaled by 2^{e}: {}", F::NAME, o.describe())),
+                }
+            }
+        }
+        let where_ = if e - e_lo < 5 { "lowest-exponents" } else if e_hi - e < 5 { "highest-exponents" } else { "interior" };
+        obs.class(&format!("exact_scaling/{}/{where_}", F::NAME));
+        obs.nontrivial(&(c.f32, &c.a, &c.b, c.conf.kind, c.conf.l().to_bits(), e));
+        Ok(())
+    }
+    if c.f32 {
+        go::<f32>(c, obs)
+    } else {
+        go::<f64>(c, obs)
+    }
+}
+
 pub fn strategy(max_n: usize) -> impl Strategy<Value = Case> {
     any::<bool>().prop_flat_map(move |f32_| {
         let er = if f32_ { -20i32..=20 } else { -150i32..=150 };
@@ -627,7 +750,7 @@ pub fn strategy(max_n: usize) -> impl Strategy<Value = Case> {
 
 pub fn run(run: &mut Run) {
     run.technique = "proptest random search with shrinking; metamorphic relations between runs on related inputs (exact for power-of-two scaling and negation, derived tolerance for shift / reordering / geometric scaling); all permutations of small samples".into();
-    run.rule = "generated samples and pairs (f32/f64) x power-of-two exponents clamped to the range in which scaling is exact x shifts on the scale of the spread x permutations x confidences, for arithmetic, paired, unpaired, geometric and harmonic intervals; all permutations of samples of 3..6 values; negation and scaling also through merge histories (same tree of +, reversed + and += on both sides); non-trivial = e != 0, non-identity permutation or k != 0 on non-constant data".into();
+    run.rule = "generated samples and pairs (f32/f64) x power-of-two exponents clamped to the range in which scaling is exact x shifts on the scale of the spread x permutations x confidences, for arithmetic, paired, unpaired, geometric and harmonic intervals; all permutations of samples of 3..6 values; exactly representable samples (multiples of 1/4) scaled bit-exactly over the whole exponent range in which data, squares, variance and bounds stay normal (both ends reached); negation and scaling also through merge histories (same tree of +, reversed + and += on both sides); non-trivial = e != 0, non-identity permutation or k != 0 on non-constant data".into();
     crate::meanref::selftest_into(run);
     let (cases, shards, max_n) = match run.tier {
         crate::engine::Tier::Quick => (32_000u32, 32usize, 600usize),
@@ -645,6 +768,15 @@ pub fn run(run: &mut Run) {
         PermCase { f32: f32_, values: crate::fl::xs(&vals), conf }
     });
     run.prop("all_permutations", run.tier.pick(3_000, 120_000), s, perm_case);
+    // exactly representable data, scaled over the whole admissible exponent range
+    // values in quarters; half of the samples avoid magnitudes below 1 (so that the variance over n, not the smallest
+    // square, is the first quantity to leave the normal range at the bottom)
+    let vals = |lo: usize, hi: usize| prop_oneof![prop::collection::vec(-24i8..=24, lo..=hi), prop::collection::vec((4i8..=9, any::<bool>()).prop_map(|(m, neg)| if neg { -m } else { m }), lo..=hi)];
+    let s = (any::<bool>(), prop_oneof![3 => vals(2, 40), 1 => vals(41, 160)], vals(2, 40), gen::conf(), any::<u8>()).prop_map(|(f32_, a, b, conf, pos)| ExactCase { f32: f32_, a, b, conf, pos });
+    run.prop("exact_scaling", run.tier.pick(40_000, 2_000_000), s, exact_case);
+    for c in ["exact_scaling/f32/lowest-exponents", "exact_scaling/f64/lowest-exponents", "exact_scaling/f32/highest-exponents", "exact_scaling/f64/highest-exponents", "exact_scaling/f64/interior", "exact_scaling/paired"] {
+        run.require_class(c);
+    }
     for c in ["scaling/arithmetic/bit-exact", "scaling/paired/bit-exact", "scaling/unpaired/bit-exact", "scaling/harmonic", "scaling/geometric", "negation/bit-exact", "negation/merge-history/bit-exact", "scaling/merge-history/bit-exact", "scaling/edge-upper/arithmetic", "scaling/edge-lower/arithmetic", "scaling/edge-upper/paired", "reorder/non-identity", "shift/checked", "shift/unpaired-checked", "reorder/all-permutations", "f32/two", "f32/upper", "f64/lower"] {
         run.require_class(c);
     }
@@ -656,6 +788,7 @@ pub fn replay(sub: &str, v: &Value, obs: &mut Obs) -> Option<PResult> {
     Some(match sub {
         "random" => case(&de(v), obs),
         "all_permutations" => perm_case(&de(v), obs),
+        "exact_scaling" => exact_case(&de(v), obs),
         _ => return None,
     })
 }
